@@ -19,6 +19,7 @@
 #include <Spectra/MatOp/DenseGenComplexShiftSolve.h>
 #include <Spectra/MatOp/SparseGenComplexShiftSolve.h>
 #include "family_impl.h"
+#include "krylov_impl.h"
 
 namespace sim {
 
@@ -47,6 +48,19 @@ struct WorldStd : IWorld
         upper = (w.variant & 4) != 0;
         if (sparse) As = to_sparse(Ad);
     }
+    // view sharing the owner's product wrapper (matrices are not regenerated; the owner keeps them alive)
+    struct ShareTag {};
+    WorldStd(const WorldStd& owner, const WorldSpec& w, ShareTag)
+    {
+        spec = w;
+        A = owner.A;
+        eps = owner.eps;
+        ctlA.target = 0;
+        ctlB.target = 1;
+        sparse = owner.sparse;
+        upper = owner.upper;
+        box.share_from(owner.box, &ctlA);
+    }
     void probe(std::vector<unsigned char>& out) override { probe_inner(box.inner.get(), out); }
     void apply_inner(int, int method, const VecL& x, VecL& y) override { apply_inner_impl<S>(box.inner.get(), method, x, y); }
 };
@@ -55,6 +69,12 @@ template <class S>
 struct WorldSym : WorldStd<S>
 {
     using WorldStd<S>::box; using WorldStd<S>::Ad; using WorldStd<S>::As; using WorldStd<S>::ctlA; using WorldStd<S>::spec;
+    WorldSym(const WorldSym& owner, const WorldSpec& w, typename WorldStd<S>::ShareTag t) : WorldStd<S>(owner, w, t) {}
+    std::unique_ptr<IWorld> share_operator(const WorldSpec& view_spec) override
+    {
+        return std::unique_ptr<IWorld>(new WorldSym(*this, view_spec, typename WorldStd<S>::ShareTag()));
+    }
+    std::unique_ptr<IKrylov> make_krylov() override { return std::unique_ptr<IKrylov>(new LanczosDriver<S, SimOp<S>, Spectra::IdentityBOp>(*box.op, Spectra::IdentityBOp(), (long) spec.ncv)); }
     explicit WorldSym(const WorldSpec& w) : WorldStd<S>(w)
     {
         if (!this->sparse)
@@ -78,6 +98,12 @@ template <class S>
 struct WorldHerm : WorldStd<S>
 {
     using WorldStd<S>::box; using WorldStd<S>::Ad; using WorldStd<S>::As; using WorldStd<S>::ctlA; using WorldStd<S>::spec;
+    WorldHerm(const WorldHerm& owner, const WorldSpec& w, typename WorldStd<S>::ShareTag t) : WorldStd<S>(owner, w, t) {}
+    std::unique_ptr<IWorld> share_operator(const WorldSpec& view_spec) override
+    {
+        return std::unique_ptr<IWorld>(new WorldHerm(*this, view_spec, typename WorldStd<S>::ShareTag()));
+    }
+    std::unique_ptr<IKrylov> make_krylov() override { return std::unique_ptr<IKrylov>(new LanczosDriver<S, SimOp<S>, Spectra::IdentityBOp>(*box.op, Spectra::IdentityBOp(), (long) spec.ncv)); }
     explicit WorldHerm(const WorldSpec& w) : WorldStd<S>(w)
     {
         if (!this->sparse)
@@ -124,6 +150,12 @@ template <class S>
 struct WorldGen : WorldStd<S>
 {
     using WorldStd<S>::box; using WorldStd<S>::Ad; using WorldStd<S>::As; using WorldStd<S>::ctlA; using WorldStd<S>::spec;
+    WorldGen(const WorldGen& owner, const WorldSpec& w, typename WorldStd<S>::ShareTag t) : WorldStd<S>(owner, w, t) {}
+    std::unique_ptr<IWorld> share_operator(const WorldSpec& view_spec) override
+    {
+        return std::unique_ptr<IWorld>(new WorldGen(*this, view_spec, typename WorldStd<S>::ShareTag()));
+    }
+    std::unique_ptr<IKrylov> make_krylov() override { return std::unique_ptr<IKrylov>(new ArnoldiDriver<S, SimOp<S>>(*box.op, (long) spec.ncv)); }
     explicit WorldGen(const WorldSpec& w) : WorldStd<S>(w)
     {
         if (!this->sparse) box.template emplace<Spectra::DenseGenMatProd<S>>(&ctlA, Ad);
